@@ -1643,3 +1643,36 @@ impl Display for Complex {""")]),
 
 impl Display for Complex {""")]),
 ]
+
+# ------------------------------------------------------------------ EM empty cases (D13 re-introduced; preserving spellings)
+CASES += [
+    dict(name="D13a-span-of-empty-clause", file=CNF, rule="EM", props=["C14", "C15", "C19"], expect="average_span:empty-case",
+         old="""            if clause.is_empty() {
+                // an empty clause mentions no variable: its span is 0
+                continue;
+            }
+""", new=""""""),
+    dict(name="D13b-span-without-clauses", file=CNF, rule="EM", props=["C14", "C15", "C19"], expect="force_order:empty-case",
+         old="""        if self.clauses.is_empty() {
+            // no clauses: nothing spans anything (and 0 / 0 would be NaN)
+            return 0.0;
+        }
+""", new=""""""),
+    dict(name="em-len-zero-ok", file=CNF, rule="EM", props=["C14", "C15"], expect=None,
+         old="""            if clause.is_empty() {
+                // an empty clause mentions no variable: its span is 0
+                continue;
+            }
+""", new="""            if clause.len() == 0 {
+                continue;
+            }
+"""),
+    dict(name="em-unwrap-last-of-empty-clause", file=CNF, rule="EM", props=["C15", "C17"], expect="to_dimacs:empty-case",
+         old="""    pub fn to_dimacs(&self) -> String {
+        let mut r = String::new();
+        for clause in self.clauses.iter() {""",
+         new="""    pub fn to_dimacs(&self) -> String {
+        let mut r = String::new();
+        for clause in self.clauses.iter() {
+            let _widest = clause.iter().map(|l| l.label().value()).max().unwrap();"""),
+]
